@@ -37,6 +37,45 @@ def sealing_loops(fn_node: ast.AST) -> list[ast.For]:
     return out
 
 
+def generate_parse_rule(chk: Check, eng: Engine, rule: str) -> None:
+    """What Grammar.generate hands out for a generator-defined symbol is the *parse result* of the generator's value under that symbol: a
+    derivation by construction.  The value is parsed under the generator's own symbol, a misfit raises on every path, and nothing else is
+    ever substituted for the parsed tree (not a fuzzed tree, not a tree the generator built itself)."""
+    g = eng.cls(GRAMMAR, "Grammar")
+    # ---- R16-c ---------------------------------------------------------------
+    gen = eng.method(g, "generate", inherited=False)
+    gcfg = eng.cfg(gen)
+    parses = [n for n in gcfg.nodes if n.kind == "stmt" and isinstance(n.ast, ast.Assign) and isinstance(n.ast.value, ast.Call) and call_name(n.ast.value) == "parse"]
+    if len(parses) != 1:
+        raise AnalysisError("Grammar.generate: `tree = self.parse(...)` not found")
+    pcall = parses[0].ast.value  # type: ignore[union-attr]
+    tvar = parses[0].ast.targets[0].id  # type: ignore[union-attr]
+    start = pcall.args[1] if len(pcall.args) > 1 else get_kwarg(pcall, "start")
+    if start is not None and isinstance(start, ast.Name) and start.id in gen.params():
+        chk.ok(rule, gen.fq, parses[0].line, f"generator output is parsed under the generator's own symbol (`{short(pcall)}`)")
+    else:
+        chk.bad(rule, eng.relfile(gen), parses[0].line, gen.fq, f"`{short(pcall)}` does not parse under the generator's symbol",
+                "generated text is fitted to another rule than the symbol's", keyparts="generate-start")
+    none_ifs = [n for n in gcfg.nodes if n.kind == "if" and norm(n.ast.test) in (f"{tvar} is None", f"not {tvar}")]  # type: ignore[union-attr]
+    if not none_ifs:
+        chk.bad(rule, eng.relfile(gen), parses[0].line, gen.fq, "the result of self.parse is not checked for None", "a generator value that does not fit the rule is used as if it did", keyparts="no-none-check")
+    for ni in none_ifs:
+        tb = gcfg.true_branch_nodes(ni.id)
+        exits_normally = gcfg.find_path(ni.id, [gcfg.exit], ignore_edges={(ni.id, "false")}) is not None
+        raises = any(gcfg.nodes[i].kind == "stmt" and isinstance(gcfg.nodes[i].ast, ast.Raise) for i in tb)
+        if raises and not exits_normally:
+            chk.ok(rule, gen.fq, ni.line, f"`{ni.text()}` -> raise on every path")
+        else:
+            chk.bad(rule, eng.relfile(gen), ni.line, gen.fq, f"`{ni.text()}` does not raise on every path",
+                    "a generator value that does not parse under the symbol's rule is silently replaced or ignored", keyparts="misfit-no-raise")
+    reassigned = [n for n in walk_local(gen.node) if isinstance(n, ast.Assign) and any(isinstance(t, ast.Name) and t.id == tvar for t in n.targets) and n is not parses[0].ast]
+    if reassigned:
+        chk.bad(rule, eng.relfile(gen), reassigned[0].lineno, gen.fq, f"`{short(reassigned[0])}` substitutes the parsed generator output", "the tree is not what the generator returned", keyparts="tree-substituted")
+    else:
+        chk.ok(rule, gen.fq, parses[0].line, f"`{tvar}` is assigned exactly once (no substitute tree)")
+
+
+
 def run(chk: Check, eng: Engine) -> None:
     chk.rule("R16-a", "a read-only (generator-owned) node is never the target of a substitution", floor=2)
     chk.rule("R16-b", "generated children are marked read-only on every path before the generated subtree is attached", floor=2)
@@ -122,37 +161,7 @@ def run(chk: Check, eng: Engine) -> None:
             chk.bad("R16-b", eng.relfile(ps), d.line, ps.fq, "sources are derived for a generator node but its children are not sealed on every path",
                     "a parsed / repaired tree carries generator output that search operators may edit", path=pcfg.describe_path(p) if p else [], keyparts="populate-unsealed")
 
-    # ---- R16-c ---------------------------------------------------------------
-    gen = eng.method(g, "generate", inherited=False)
-    gcfg = eng.cfg(gen)
-    parses = [n for n in gcfg.nodes if n.kind == "stmt" and isinstance(n.ast, ast.Assign) and isinstance(n.ast.value, ast.Call) and call_name(n.ast.value) == "parse"]
-    if len(parses) != 1:
-        raise AnalysisError("Grammar.generate: `tree = self.parse(...)` not found")
-    pcall = parses[0].ast.value  # type: ignore[union-attr]
-    tvar = parses[0].ast.targets[0].id  # type: ignore[union-attr]
-    start = pcall.args[1] if len(pcall.args) > 1 else get_kwarg(pcall, "start")
-    if start is not None and isinstance(start, ast.Name) and start.id in gen.params():
-        chk.ok("R16-c", gen.fq, parses[0].line, f"generator output is parsed under the generator's own symbol (`{short(pcall)}`)")
-    else:
-        chk.bad("R16-c", eng.relfile(gen), parses[0].line, gen.fq, f"`{short(pcall)}` does not parse under the generator's symbol",
-                "generated text is fitted to another rule than the symbol's", keyparts="generate-start")
-    none_ifs = [n for n in gcfg.nodes if n.kind == "if" and norm(n.ast.test) in (f"{tvar} is None", f"not {tvar}")]  # type: ignore[union-attr]
-    if not none_ifs:
-        chk.bad("R16-c", eng.relfile(gen), parses[0].line, gen.fq, "the result of self.parse is not checked for None", "a generator value that does not fit the rule is used as if it did", keyparts="no-none-check")
-    for ni in none_ifs:
-        tb = gcfg.true_branch_nodes(ni.id)
-        exits_normally = gcfg.find_path(ni.id, [gcfg.exit], ignore_edges={(ni.id, "false")}) is not None
-        raises = any(gcfg.nodes[i].kind == "stmt" and isinstance(gcfg.nodes[i].ast, ast.Raise) for i in tb)
-        if raises and not exits_normally:
-            chk.ok("R16-c", gen.fq, ni.line, f"`{ni.text()}` -> raise on every path")
-        else:
-            chk.bad("R16-c", eng.relfile(gen), ni.line, gen.fq, f"`{ni.text()}` does not raise on every path",
-                    "a generator value that does not parse under the symbol's rule is silently replaced or ignored", keyparts="misfit-no-raise")
-    reassigned = [n for n in walk_local(gen.node) if isinstance(n, ast.Assign) and any(isinstance(t, ast.Name) and t.id == tvar for t in n.targets) and n is not parses[0].ast]
-    if reassigned:
-        chk.bad("R16-c", eng.relfile(gen), reassigned[0].lineno, gen.fq, f"`{short(reassigned[0])}` substitutes the parsed generator output", "the tree is not what the generator returned", keyparts="tree-substituted")
-    else:
-        chk.ok("R16-c", gen.fq, parses[0].line, f"`{tvar}` is assigned exactly once (no substitute tree)")
+    generate_parse_rule(chk, eng, "R16-c")
 
     # ---- R16-d ---------------------------------------------------------------
     T = eng.cls(TREE, "DerivationTree")
